@@ -8,13 +8,22 @@ Per generated schema with signing relations:
    rule at all is reported separately.
 Pairs: packet names that match a rule (all names to a length bound + tree-guided ones), key names likewise,
 plus unrelated, empty and digest-suffixed names.
+Digest clause ("a trailing implicit-digest component on either name is ignored"): per schema a few base pairs
+(allowed ones first) are asked in every combination of {bare, +digest A, +digest B} on the packet name x the same
+on the key name, plus suffixes of which only the last component / nothing may be dropped (two digests, a
+ParametersSha256-typed component, a digest that is not the last component).  Every variant is compared with
+can_sign; the 3 x 3 grid must in addition give one and the same answer.
 """
 from harness.props import lvs_common as L
 from harness.props.c11 import is_pseudo
 
 RULE = ('schemas as for C11 with signing relations (chains, alternatives, shared pattern names between packet and key '
         'rules, constraints on shared patterns in the key rule, 10% with cycles); pairs = (names matching a rule with signers '
-        '+ random) x (names matching any rule + tree-guided + random), empty and digest-suffixed names included; '
+        '+ random) x (names matching any rule + tree-guided + random), empty names included; 5% digest on the packet name, '
+        '5% on the key name, 8% on both (equal / different digest values), 2% a digest inside a name; digest grid: per schema '
+        'up to 4 allowed + 4 refused + 2 random base pairs x {bare, +digest A, +digest B} on the packet x the same on the key '
+        '(9 calls, one answer demanded), and x {two digests, ParametersSha256-typed last component, digest before the last '
+        'component} on either side against {bare, +digest} on the other; '
         'non-trivial = both names non-empty; distinct by (schema text, packet, key)')
 ASSUMPTIONS = ['lark 1.x and grammar.py are exercised, not modelled', 'user functions are the table / $eq / $eq_type instances supplied by the harness']
 
@@ -75,6 +84,32 @@ def key_matches_some_rule(chk, key):
     return False
 
 
+BATCH = 250
+DIGEST_A = L.DIGEST
+DIGEST_B = bytes([1, 32]) + bytes(range(32, 64))
+PARAMS_DIGEST = bytes([2, 32]) + bytes(range(32))     # ParametersSha256DigestComponent: not the implicit digest, never dropped
+
+# what may follow a name: (label, suffix builder).  Only 'A' / 'B' are "the name with its implicit digest".
+PLAIN_SUFFIXES = [('bare', lambda n: n), ('A', lambda n: n + [DIGEST_A]), ('B', lambda n: n + [DIGEST_B])]
+ODD_SUFFIXES = [('AB', lambda n: n + [DIGEST_A, DIGEST_B]),                 # only the last one is dropped
+                ('params', lambda n: n + [PARAMS_DIGEST]),                    # nothing is dropped
+                ('A-inside', lambda n: n[:-1] + [DIGEST_A] + n[-1:])]         # nothing is dropped (for n = [] this is 'A')
+
+
+def digest_grid(p, k):
+    """-> [(label, pkt, key)]: the 3 x 3 grid first (bare.bare is entry 0), then the odd suffixes"""
+    out = [(f'{a}.{c}', fa(list(p)), fc(list(k))) for a, fa in PLAIN_SUFFIXES for c, fc in PLAIN_SUFFIXES]
+    for o, fo in ODD_SUFFIXES:
+        for a, fa in PLAIN_SUFFIXES[:2]:
+            out.append((f'{o}.{a}', fo(list(p)), fa(list(k))))
+            out.append((f'{a}.{o}', fa(list(p)), fo(list(k))))
+    return out
+
+
+def has_digest(n):
+    return any(c[:1] == b'\x01' for c in n)
+
+
 def check_schema(ctx, ast, fe, lits, tag, maxlen, npairs):
     M = ctx.call
     rng = ctx.rng
@@ -110,16 +145,43 @@ def check_schema(ctx, ast, fe, lits, tag, maxlen, npairs):
             p, k = list(rng.choice(pk)), list(rng.choice(kk))
             t = rng.random()
             if t < 0.05:
-                p = p + [L.DIGEST]
+                p = p + [DIGEST_A]
             elif t < 0.1:
-                k = k + [L.DIGEST]
+                k = k + [rng.choice([DIGEST_A, DIGEST_B])]
+            elif t < 0.18:          # two full names in one call
+                p, k = p + [rng.choice([DIGEST_A, DIGEST_B])], k + [rng.choice([DIGEST_A, DIGEST_B])]
+            elif t < 0.2:           # a digest-typed component that is not the last one stays
+                if rng.random() < 0.5:
+                    p.insert(rng.randint(0, max(len(p) - 1, 0)), DIGEST_A)
+                else:
+                    k.insert(rng.randint(0, max(len(k) - 1, 0)), DIGEST_B)
             pairs.append([p, k])
     pairs.append([[], []])
     seen = set()
     pairs = [pq for pq in pairs if (h := repr(pq)) not in seen and not seen.add(h)]
     impl = [L.impl_check(chk, p, k) for p, k in pairs]
-    mod = M([14, dump, sfe, L.MODEL_FUEL, pairs])
-    spec = M([16, sa, sfe, pairs])
+    # ---- digest grid: base pairs without any digest, allowed ones first ---------------------------------
+    bare = [i for i, (p, k) in enumerate(pairs) if not has_digest(p) and not has_digest(k)]
+    yes = [i for i in bare if impl[i][0] == 'ok' and impl[i][1]]
+    no = [i for i in bare if impl[i][0] == 'ok' and not impl[i][1] and pairs[i][0] and pairs[i][1]]
+    base = rng.sample(yes, min(4, len(yes))) + rng.sample(no, min(4, len(no))) + rng.sample(bare, min(2, len(bare)))
+    grids = []                      # (index of bare.bare, [(label, index)])
+    for bi in dict.fromkeys(base):
+        g = []
+        for label, p, k in digest_grid(*pairs[bi]):
+            if label == 'bare.bare':
+                g.append((label, bi))
+            else:
+                # asked again even when the random stream already produced it: the answer must not depend on earlier calls
+                pairs.append([p, k])
+                impl.append(L.impl_check(chk, p, k))
+                g.append((label, len(pairs) - 1))
+        grids.append(g)
+    # batches: the extracted model's node look-up is linear in the node id, a 3000-node tree answers ~10 pairs / s
+    mod, spec = [], []
+    for at in range(0, len(pairs), BATCH):
+        mod += M([14, dump, sfe, L.MODEL_FUEL, pairs[at:at + BATCH]])
+        spec += M([16, sa, sfe, pairs[at:at + BATCH]])
     is_closed = closed(ast)
     for i, (p, k) in enumerate(pairs):
         ri, mi = impl[i], mod[i]
@@ -140,6 +202,19 @@ def check_schema(ctx, ast, fe, lits, tag, maxlen, npairs):
             ctx.violation('Checker.check', 'raises-' + ri[2].split(':')[0], 'check() raises on a schema without user functions', cs)
         ctx.case((text, p, k), bool(p) and bool(k), {'schema': text, 'pkt': p, 'key': k} if i == 5 else None,
                  tag + ('.yes' if ri[0] == 'ok' and ri[1] else '.no' if ri[0] == 'ok' else '.raise'))
+        dg = ('pkt' if has_digest(p) else '') + ('key' if has_digest(k) else '')
+        if dg:
+            ctx.stat('digest.on-' + dg + ('.yes' if ri[0] == 'ok' and ri[1] else '.no' if ri[0] == 'ok' else '.raise'))
+    # the clause itself: with or without the implicit digest on either name, one answer
+    for g in grids:
+        ref = impl[g[0][1]]
+        for label, i in g[1:9]:
+            if impl[i][:2] != ref[:2]:
+                ctx.violation('Checker.check', 'trailing-digest-changes-answer',
+                              f'check() answers {impl[i][1] if impl[i][0] == "ok" else impl[i][2]} with digests placed as '
+                              f'{label} (packet.key) but {ref[1] if ref[0] == "ok" else ref[2]} on the bare names',
+                              dict(case, pkt=pairs[i][0], key=pairs[i][1], bare_pkt=pairs[g[0][1]][0], bare_key=pairs[g[0][1]][1]))
+        ctx.stat('digest.grids' + ('.allowed' if ref[0] == 'ok' and ref[1] else '.refused' if ref[0] == 'ok' else '.raise'))
     ctx.stat('schemas.with_signed_nodes' if signed_nodes else 'schemas.without_signed_nodes')
 
 
